@@ -130,3 +130,43 @@ func VH_C16_prom() {
 	verifAssert("C16.prom.bytes-c<p", verifCounterValue(pk, "int", "c<p", "key-3") == d)
 	verifReach("C16.prom.done", true)
 }
+
+
+// non-interference (2-safety): two clients that differ only in address and receive the same
+// location info produce exactly the same exported label values
+func verifC20Scenario(db *verifInfoDB, caddr *net.TCPAddr, authenticated bool) []string {
+	verifSinkReset() // the model's sink log is per run, not per collector
+	verifInstallClock(1 << 41)
+	m, _ := NewServiceMetrics(db)
+	conn := &verifConn{remote: caddr, local: &net.TCPAddr{IP: net.IPv4(192, 0, 2, 1), Port: 443}}
+	tcm := m.AddOpenTCPConnection(conn)
+	if authenticated {
+		tcm.AddAuthenticated("key-1")
+	} else {
+		tcm.AddProbe("ERR_CIPHER", "timeout", 50)
+	}
+	verifClockNs += 1000
+	tcm.AddClosed("OK", metrics.ProxyMetrics{ClientProxy: 10, ProxyTarget: 20, TargetProxy: 30, ProxyClient: 40}, 5*time.Second)
+	ucm := m.AddUDPNatEntry(&net.UDPAddr{IP: caddr.IP, Port: caddr.Port}, "key-1")
+	ucm.AddPacketFromClient("OK", 100, 60)
+	ucm.AddPacketFromTarget("OK", 70, 110)
+	verifClockNs += 1000
+	ucm.RemoveNatEntry()
+	verifClockNs += 1000
+	return verifAllLabelValues(m)
+}
+
+func VH_C20_noninterference() {
+	db := &verifInfoDB{info: ipinfo.IPInfo{CountryCode: "AA", ASN: ipinfo.ASN{Number: 64500, Organization: "Example Org"}}}
+	a := verifClientTCPAddr()
+	b := verifClientTCPAddr()
+	verifAssume(a.Port != b.Port && a.IP[3] != b.IP[3])
+	auth := verifFlag("authenticated")
+	la := verifC20Scenario(db, a, auth)
+	lb := verifC20Scenario(db, b, auth)
+	verifAssert("C20.noninterference.same-shape", len(la) == len(lb))
+	for i := 0; i < len(la) && i < len(lb); i++ {
+		verifAssert("C20.noninterference.same-labels", la[i] == lb[i])
+	}
+	verifReach("C20.noninterference.done", true)
+}
